@@ -140,3 +140,76 @@ def oneshot_rule(prog: Program, rep: Report, rule: str, funcs: List[Func], why: 
              + (f"; {why}" if why else ""), floor=len(funcs))
     for f in funcs:
         check_oneshot(prog, rep, rule, f, f.cls)
+
+
+
+def oneshot_field_rule(prog: Program, rep: Report, rule: str, cls: Cls, declare: bool = True):
+    """a one-shot constructor argument that is kept as given in a field is not also traversed by the constructor: the methods that
+    walk the field later would find it exhausted"""
+    from ..flow import Flow
+    from ..util import iter_stores
+    from .memo import own_methods
+    if declare:
+        rep.rule(rule, "a constructor argument annotated Iterable/Iterator/Generator that is stored as given in a field and traversed "
+                 "later through that field is not traversed by the constructor as well (a generator argument would be exhausted "
+                 "before the first use of the field)", floor=1)
+    init = prog.resolve(cls, "__init__")
+    if init is None or getattr(init.cls, "is_external", False):
+        return
+    rep.fn(init)
+    role = f"one-shot-field:{cls.name}"
+    tracked = one_shot_params(init)
+    flow = Flow(init.node)
+    kept = {}
+    for t, v, st in iter_stores(init.node):
+        if isinstance(t, ast.Attribute) and isinstance(t.value, ast.Name) and t.value.id == init.self_name and isinstance(v, ast.Name) \
+                and v.id in tracked and flow.origin_is_param(v, v.id):
+            kept[t.attr] = (v.id, st)
+    if not kept:
+        rep.ok(rule, init, role, "no one-shot parameter is stored as given")
+        return
+    client = _OneShot(set(tracked))
+    it = Interp(prog, client)
+    ex = it.run(init, {frozenset()}, cls)
+    if it.unrecognised:
+        rep.unrec(rule, init, role, "; ".join(it.unrecognised))
+        return
+    consumed = {}
+    for stt in ex.normal | ex.ret:
+        for k, v in stt:
+            if k != "M":
+                consumed[k] = v
+    for fld, (pname, st) in sorted(kept.items()):
+        if pname not in consumed:
+            continue
+        # is the field traversed anywhere else?
+        later = None
+        for m in own_methods(cls):
+            if m.name == "__init__":
+                continue
+            for n in ast.walk(m.node):
+                itx = None
+                if isinstance(n, (ast.For, ast.comprehension)):
+                    itx = n.iter
+                elif isinstance(n, ast.Call) and src(n.func) not in NOT_CONSUMING:
+                    for a in n.args:
+                        if isinstance(a, ast.Attribute) and isinstance(a.value, ast.Name) and a.value.id == m.self_name and a.attr == fld:
+                            itx = a
+                roots = []
+                if itx is not None:
+                    for x in ast.walk(itx):
+                        if isinstance(x, ast.Attribute) and isinstance(x.value, ast.Name) and x.value.id == m.self_name and x.attr == fld:
+                            roots.append(x)
+                if roots:
+                    later = (m, roots[0])
+                    break
+            if later:
+                break
+        if later:
+            m, node = later
+            rep.viol(rule, init, role, f"the constructor traverses its iterable argument `{pname}` (line {consumed[pname]}) and also keeps "
+                     f"it as given in self.{fld}, which {m.name}() walks (line {node.lineno}): a generator / map argument is exhausted "
+                     "before that",
+                     scenario=f"{cls.name}(p for p in paths): the later walk over self.{fld} sees nothing", line=consumed[pname])
+            return
+    rep.ok(rule, init, role, f"{', '.join(sorted(kept))} kept as given; the constructor does not traverse them")
